@@ -271,8 +271,13 @@ def check_top_level(ctx, sf, rng):
         amp /= np.linalg.norm(amp)
         prep = dict(cls="Ket", regs=list(range(n)), pars=[], apars=[dict(re=amp.real.tolist(), im=amp.imag.tolist())])
         T = rng.choice([0.1, 0.5, 0.9, 0.25])
-        op = rng.choice([dict(cls="LossChannel", regs=[m], pars=[T]), dict(cls="LossChannel", regs=[m], pars=[T]),
-                         dict(cls="Rgate", regs=[m], pars=[sim.angle(rng)]), dict(cls="Kgate", regs=[m], pars=[0.3])])
+        ops_pool = [dict(cls="LossChannel", regs=[m], pars=[T]), dict(cls="LossChannel", regs=[m], pars=[T]),
+                    dict(cls="Rgate", regs=[m], pars=[sim.angle(rng)]), dict(cls="Kgate", regs=[m], pars=[0.3]),
+                    # the cubic phase gate is the exponential of a truncated Hermitian matrix: unitary on the truncated space
+                    dict(cls="Vgate", regs=[m], pars=[round(rng.uniform(-0.4, 0.4), 3)])]
+        if n == 2:
+            ops_pool.append(dict(cls="CKgate", regs=rng.sample([0, 1], 2), pars=[round(rng.uniform(-0.5, 0.5), 3)]))
+        op = rng.choice(ops_pool)
         for backend in ("fock-pure", "fock-mixed"):
             rp = dict(kind="top", prep=prep, op=op, n=n, D=D, backend=backend)
             ctx.oracle_cases += 1
